@@ -65,31 +65,39 @@ def finOr (v : XVal) (d : EVal) (f : Rat → Rat) : EVal :=
   | .e (.fin t) => .fin (f t)
   | _ => d
 
+/-- scaled lower bound of a target goal at step `i` before folding / relaxation:
+    `(eps*(m - m_t) + m_t - relaxation)/nominal` (critical goals: without the `eps` term);
+    `-inf` where the goal has no (finite) lower target -/
+def targetLo (g : Goal) (eps : Rat) (i : Nat) : EVal :=
+  let nom := g.nomAt 0
+  let lo : Rat := match g.loAt 0 with | .e (.fin q) => q | _ => 0
+  if g.hasMin then
+    finOr (g.mAt 0 i) .ninf fun t => ((if g.critical then 0 else eps * (lo - t)) + t - g.relaxation) / nom
+  else .ninf
+
+def targetHi (g : Goal) (eps : Rat) (i : Nat) : EVal :=
+  let nom := g.nomAt 0
+  let hi : Rat := match g.hiAt 0 with | .e (.fin q) => q | _ => 0
+  if g.hasMax then
+    finOr (g.MAt 0 i) .pinf fun t => ((if g.critical then 0 else eps * (hi - t)) + t + g.relaxation) / nom
+  else .pinf
+
+/-- equality folding: two finite bounds closer than `equality_threshold` become their mean -/
+def foldEq (thr : Rat) (both : Bool) (m0 M0 : EVal) : EVal × EVal :=
+  match m0, M0 with
+  | .fin a, .fin b =>
+      if both && decide (qabs (a - b) < thr) then (.fin ((a + b) / 2), .fin ((a + b) / 2)) else (m0, M0)
+  | _, _ => (m0, M0)
+
+def subFin (v : EVal) (c : Rat) : EVal := match v with | .fin a => .fin (a - c) | x => x
+def addFin (v : EVal) (c : Rat) : EVal := match v with | .fin a => .fin (a + c) | x => x
+
 /-- one step of a (scalar) target goal: `eps` already includes `violation_relaxation`; for a
     critical goal the `eps`-term is absent.  Follows the code: scaled bounds, equality folding,
     inactive steps to ∓inf, `constraint_relaxation`. -/
 def hardTargetStep (o : HOpts) (g : Goal) (eps : Rat) (i : Nat) : EIvl :=
-  let nom := g.nomAt 0
-  let lo : Rat := match g.loAt 0 with | .e (.fin q) => q | _ => 0
-  let hi : Rat := match g.hiAt 0 with | .e (.fin q) => q | _ => 0
-  let m0 : EVal :=
-    if g.hasMin then
-      finOr (g.mAt 0 i) .ninf fun t => ((if g.critical then 0 else eps * (lo - t)) + t - g.relaxation) / nom
-    else .ninf
-  let M0 : EVal :=
-    if g.hasMax then
-      finOr (g.MAt 0 i) .pinf fun t => ((if g.critical then 0 else eps * (hi - t)) + t + g.relaxation) / nom
-    else .pinf
-  let (m1, M1) : EVal × EVal :=
-    match m0, M0 with
-    | .fin a, .fin b =>
-        if g.hasMin && g.hasMax && decide (qabs (a - b) < o.equalityThreshold) then
-          (.fin ((a + b) / 2), .fin ((a + b) / 2))
-        else (m0, M0)
-    | _, _ => (m0, M0)
-  let m2 : EVal := match m1 with | .fin a => .fin (a - o.constraintRelaxation) | x => x
-  let M2 : EVal := match M1 with | .fin b => .fin (b + o.constraintRelaxation) | x => x
-  ⟨m2, M2⟩
+  let p := foldEq o.equalityThreshold (g.hasMin && g.hasMax) (targetLo g eps i) (targetHi g eps i)
+  ⟨subFin p.1 o.constraintRelaxation, addFin p.2 o.constraintRelaxation⟩
 
 /-- one step of a minimisation goal: `v` = achieved function value at that step -/
 def hardMinStep (o : HOpts) (g : Goal) (v : Rat) : EIvl :=
